@@ -1270,6 +1270,7 @@ impl World {
             }
             Op::Settle { rounds } => self.settle(*rounds as usize),
             Op::Partition { mask } => {
+                self.mon.b.partition_events += 1;
                 self.part = Some(*mask);
                 true
             }
@@ -1445,6 +1446,14 @@ impl World {
                     return false;
                 }
                 let (k, v) = (*k, *v);
+                if k == 0 {
+                    let target = node_of(v) as u64;
+                    let cap = (v & 7) as usize % 5;
+                    if let Some(p) = self.nodes[ni].rn.as_ref().unwrap().raft.prs().get(target) {
+                        let cnt = p.ins.count();
+                        self.mon.on_cap_change(ni, target, cap, cnt);
+                    }
+                }
                 let allow_unpersisted = self.mon.allow_apply_unpersisted();
                 self.call(ni, CallKind::Knob, move |rn| match k {
                     0 => {
